@@ -3,6 +3,7 @@ package props
 import (
 	"bytes"
 	"fmt"
+	"io"
 	"strings"
 	"sync"
 	"sync/atomic"
@@ -20,8 +21,53 @@ import (
 	"verif/harness/hx"
 )
 
-// registry keys: three private formats and two built-in ones that no parse/write operation of the programs uses
-var c17Keys = []formats.Format{"application/x-verif-k1", "application/x-verif-k2", "application/x-verif-k3", formats.CDX10JSON, formats.CDX11JSON}
+// registry keys: private formats only (what registering or removing a *built-in* format means beyond the plain map
+// — restoring the default, falling back to a neighbouring version — is the library's business)
+var c17Keys = []formats.Format{"application/x-verif-k1", "application/x-verif-k2", "application/x-verif-k3", "application/x-verif-k4", "application/x-verif-k5"}
+
+// marker drivers: which driver a lookup returned is told by what the returned driver *does* (the registry may hand out
+// a wrapper around the registered object)
+type markU struct{ id int }
+
+func (m *markU) Unserialize(io.Reader, *native.UnserializeOptions, interface{}) (*sbom.Document, error) {
+	d := sbom.NewDocument()
+	d.Metadata.Name = fmt.Sprintf("marker-%d", m.id)
+	return d, nil
+}
+
+type markS struct{ id int }
+
+func (m *markS) Serialize(*sbom.Document, *native.SerializeOptions, interface{}) (interface{}, error) {
+	return m.id, nil
+}
+func (m *markS) Render(interface{}, io.Writer, *native.RenderOptions, interface{}) error { return nil }
+
+func whichU(u native.Unserializer) int {
+	if u == nil {
+		return -1
+	}
+	d, err := u.Unserialize(strings.NewReader("{}"), &native.UnserializeOptions{}, nil)
+	var id int
+	if err != nil || d == nil || d.Metadata == nil {
+		return -1
+	}
+	if _, serr := fmt.Sscanf(d.Metadata.Name, "marker-%d", &id); serr != nil {
+		return -1
+	}
+	return id
+}
+
+func whichS(s native.Serializer) int {
+	if s == nil {
+		return -1
+	}
+	v, err := s.Serialize(sbom.NewDocument(), &native.SerializeOptions{}, nil)
+	id, ok := v.(int)
+	if err != nil || !ok {
+		return -1
+	}
+	return id
+}
 
 type c17Op struct {
 	Kind  string // newReader newWriter regU unregU getU regS unregS getS sniffJSON sniffTV parse write
@@ -144,30 +190,20 @@ func c17Property(t *rapid.T) {
 	for _, s := range c17SniffTV {
 		sniffTVWant = append(sniffTVWant, sniffStr(s))
 	}
-	// driver values for the registries (identity matters)
-	uvals := []native.Unserializer{nil, drivers.NewCDX("1.0", formats.JSON), drivers.NewCDX("1.1", formats.JSON), drivers.NewSPDX23()}
-	svals := []native.Serializer{nil, sdrivers.NewCDX("1.0", formats.JSON), sdrivers.NewCDX("1.1", formats.JSON), sdrivers.NewSPDX23()}
+	// driver values for the registries
+	uvals := []native.Unserializer{nil, &markU{1}, &markU{2}, &markU{3}}
+	svals := []native.Serializer{nil, &markS{1}, &markS{2}, &markS{3}}
 	uid := func(u native.Unserializer, err error) int {
 		if err != nil {
 			return 0
 		}
-		for i := 1; i < len(uvals); i++ {
-			if uvals[i] == u {
-				return i
-			}
-		}
-		return -1
+		return whichU(u)
 	}
 	sid := func(s native.Serializer, err error) int {
 		if err != nil {
 			return 0
 		}
-		for i := 1; i < len(svals); i++ {
-			if svals[i] == s {
-				return i
-			}
-		}
-		return -1
+		return whichS(s)
 	}
 	// start from empty registries for the keys used
 	for _, k := range c17Keys {
@@ -175,7 +211,7 @@ func c17Property(t *rapid.T) {
 		writer.UnregisterSerializer(k)
 	}
 	defer func() {
-		for _, k := range c17Keys[:3] {
+		for _, k := range c17Keys {
 			reader.UnregisterUnserializer(k)
 			writer.UnregisterSerializer(k)
 		}
@@ -412,8 +448,8 @@ func TestC17SniffStress(t *testing.T) {
 // goroutines do to their keys; a lost or resurrected registration is visible immediately. Fixed program.
 func TestC17RegistryStress(t *testing.T) {
 	const workers, rounds = 8, 1500
-	uvals := []native.Unserializer{drivers.NewCDX("1.0", formats.JSON), drivers.NewCDX("1.1", formats.JSON), drivers.NewSPDX23()}
-	svals := []native.Serializer{sdrivers.NewCDX("1.0", formats.JSON), sdrivers.NewCDX("1.1", formats.JSON), sdrivers.NewSPDX23()}
+	uvals := []native.Unserializer{&markU{0}, &markU{1}, &markU{2}}
+	svals := []native.Serializer{&markS{0}, &markS{1}, &markS{2}}
 	var wg sync.WaitGroup
 	var mu sync.Mutex
 	var failures []string
@@ -437,10 +473,10 @@ func TestC17RegistryStress(t *testing.T) {
 				v := (g + i) % 3
 				reader.RegisterUnserializer(key, uvals[v])
 				writer.RegisterSerializer(key, svals[v])
-				if u, err := reader.GetFormatUnserializer(key); err != nil || u != uvals[v] {
+				if u, err := reader.GetFormatUnserializer(key); err != nil || whichU(u) != v {
 					fail("goroutine %d round %d: the unserializer it just registered under its private key is not returned (err=%v)", g, i, err)
 				}
-				if s, err := writer.GetFormatSerializer(key); err != nil || s != svals[v] {
+				if s, err := writer.GetFormatSerializer(key); err != nil || whichS(s) != v {
 					fail("goroutine %d round %d: the serializer it just registered under its private key is not returned (err=%v)", g, i, err)
 				}
 				if i%2 == 0 {
